@@ -164,6 +164,17 @@ def assignments(idxs):
         yield dict(zip(idxs, bits))
 
 
+def same_outcome(ref, a, b):
+    """Equal outcomes, where running / saving rule i and rule j are the same thing if the two rules'
+    right-hand sides are the same text (a generator may share one action function between them)."""
+    if a == b:
+        return True
+    if a[0] == b[0] and a[0] in ("run", "save") and len(a) == 2 and len(b) == 2:
+        c = getattr(ref, "canon", {})
+        return c.get(a[1], a[1]) == c.get(b[1], b[1])
+    return False
+
+
 def check_leaf(view, ref, sigma, leaf_out, d, is_eoi, is_init_entry, pairs_out, where):
     """Compare one extracted outcome with the reference state d reached by the same symbol."""
     if not d:
@@ -175,7 +186,7 @@ def check_leaf(view, ref, sigma, leaf_out, d, is_eoi, is_init_entry, pairs_out, 
         return
     if ref.is_terminal(d):
         exp = ref_terminal(ref, d, sigma)
-        if leaf_out != exp:
+        if not same_outcome(ref, leaf_out, exp):
             raise Mismatch("tv:terminal", "%s: expected %r, generated lexer does %r (contexts %r)" % (
                 where, exp, leaf_out, sigma), {"generated": leaf_out, "expected": exp,
                                                "candidates": ref.cand(d)})
@@ -188,7 +199,7 @@ def check_leaf(view, ref, sigma, leaf_out, d, is_eoi, is_init_entry, pairs_out, 
     got = leaf_out[2]
     if got[0] == "clear":
         got = ("keep",) if exp_save == ("keep",) and False else got
-    if got != exp_save:
+    if not same_outcome(ref, got, exp_save):
         raise Mismatch("tv:save", "%s: on entering the next state the reference %s, the generated "
                        "lexer %s (contexts %r)" % (where, _say(exp_save), _say(got), sigma),
                        {"generated": got, "expected": exp_save, "candidates": ref.cand(d)})
@@ -231,7 +242,7 @@ def bisim(L, ref, entry_state, is_init, stats=None):
             if not consistent(c, sigma):
                 continue
             exp = ref_save(ref, d0, sigma)
-            if o[2] != exp:
+            if not same_outcome(ref, o[2], exp):
                 raise Mismatch("tv:entry", "entry state %d: reference %s, generated lexer %s" % (
                     entry_state, _say(exp), _say(o[2])), None)
         work.append((o[1], d0))
